@@ -181,15 +181,19 @@ def gen_entity(rng, vmf, features, vis_ids: List[int], group_ids: List[int], bru
         keys['nodeid'] = str(rng.randrange(1, 30))
     fix = []
     used = set()
-    for _ in range(rng.choice((0, 0, 0, 1, 3, 6))):
+    # the exporter writes replaceNN with at least two digits: 100 and more fixups (or explicit three-digit indexes) need three
+    many = rng.random() < 0.03
+    for _ in range(rng.randint(98, 112) if many else rng.choice((0, 0, 0, 1, 3, 6))):
         var = (ident(rng) if rng.random() < 0.8 else hostile(rng, 6, newlines=False, p=1.0).replace(' ', '_').replace('\t', '_').lstrip('$').replace('\x0b', '_').replace('\x0c', '_')) or 'v'
         var = ''.join(c for c in var if not c.isspace()).lstrip('$') or 'v'
         if var.casefold() in used:
             continue
         used.add(var.casefold())
-        fix.append(FixupValue(var, hostile(rng, 10), rng.choice((len(fix) + 1, len(fix) + 1, 1, 7))))
+        fix.append(FixupValue(var, hostile(rng, 10), len(fix) + 1 if many else rng.choice((len(fix) + 1, len(fix) + 1, 1, 7, 100, 250))))
     if fix:
         features['fixup'] = features.get('fixup', 0) + 1
+    if any(f.id >= 100 for f in fix):
+        features['fixup_index_3_digits'] = features.get('fixup_index_3_digits', 0) + 1
     outs = [gen_output(rng) for _ in range(rng.choice((0, 0, 1, 2, 4)))]
     if outs:
         features['output'] = features.get('output', 0) + 1
